@@ -486,6 +486,11 @@ func (t *Task) verifyFunc(fn *ssa.Function, con *FuncContract) {
 			// magnitude premise about the environment (clock values ...): assumed, listed, not a call-site obligation
 			t.assume(tTrue, env.evalBool(c.Expr, c.Src))
 			t.assumed["magnitude premise ("+c.Src+"): "+c.Expr] = true
+		case "use":
+			// lemma instances are also available from the start (arguments are read in the entry state)
+			if f := t.lemmaInstance(env, c); f != "" {
+				t.assume(tTrue, f)
+			}
 		case "oldlet":
 			v := env.evalSrc(c.Expr, c.Src)
 			env.vars[c.Name] = v
@@ -556,9 +561,15 @@ func (t *Task) verifyFunc(fn *ssa.Function, con *FuncContract) {
 			t.assume(out.pc, penv.evalBool(c.Expr, c.Src))
 			t.assumed["assume clause at "+c.Src+": "+c.Expr] = true
 		case "ensures":
-			v := penv.evalBool(c.Expr, c.Src)
-			name := fmt.Sprintf("%s%s#ensures[%s]", t.curFn, caseSuffix(con), labelOr(c.Label, n))
-			t.oblige("ensures", name, c.Label, out.pc, v, c.Src, c.Expr)
+			parts := splitConj(c.Expr)
+			for pi, part := range parts {
+				v := penv.evalBool(part, c.Src)
+				name := fmt.Sprintf("%s%s#ensures[%s]", t.curFn, caseSuffix(con), labelOr(c.Label, n))
+				if len(parts) > 1 {
+					name = fmt.Sprintf("%s%s#ensures[%s/%d]", t.curFn, caseSuffix(con), labelOr(c.Label, n), pi+1)
+				}
+				t.oblige("ensures", name, c.Label, out.pc, v, c.Src, part)
+			}
 			n++
 		}
 	}
